@@ -688,32 +688,44 @@ class Norm:
             t = self._project(base, path)
             effs = [x for x in self.effects.get(lid, [])]
             if effs and (lid in self.mut or any(k in ("assign", "assignop") for _, k, _g in effs)):
-                et = []
-                own = self.def_ctx.get(lid, (0, ()))[1] or ()
-                for node, kind, guards in effs:
-                    if guards[:len(own)] == own:
-                        guards = guards[len(own):]          # guards are relative to where the local is declared
-                    gt = self.guard_terms(guards)
-                    if kind == "assign":
-                        et.append(("assign", self._lhs_path(node["l"]), self._t(node["r"]), gt))
-                    elif kind == "assignop":
-                        et.append(("assignop", node["op"], self._lhs_path(node["l"]), self._t(node["r"]), gt))
-                    elif kind == "mutcall":
-                        args = [self._t(a) for a in node["args"]]
-                        et.append(("mutcall", cshort(node.get("callee", node["name"])), self._lhs_path(node["recv"]), args, gt))
-                    elif kind.startswith("mutarg"):
-                        pos = int(kind.split(":")[1])
-                        if node["k"] == "MethodCall":
-                            allargs = [node["recv"]] + node["args"]
-                        else:
-                            allargs = node["args"]
-                        args = [("sym", "&self") if i == pos else self._t(a) for i, a in enumerate(allargs)]
-                        et.append(("mutarg", cshort(node.get("callee", node.get("name", "?"))), args, gt))
-                t = self._canon_mut(lid, ("mut", pat.get("name", "?"), t, et), effs, origin)
+                et, inlined_any = self._effect_tuples(lid, effs)
+                t = ("mut", pat.get("name", "?"), t, et) if inlined_any else self._canon_mut(lid, ("mut", pat.get("name", "?"), t, et), effs, origin)
         finally:
             self._busy.discard(lid)
         self._memo[lid] = t
         return t
+
+    def _effect_tuples(self, lid, effs):
+        """the recorded effects on a local as effect tuples (guards relative to its declaration); helper calls taking it by
+        `&mut` contribute the helper's own effects when the helper is transparent"""
+        et = []
+        own = self.def_ctx.get(lid, (0, ()))[1] or ()
+        inlined_any = False
+        for node, kind, guards in effs:
+            if guards[:len(own)] == own:
+                guards = guards[len(own):]          # guards are relative to where the local is declared
+            gt = self.guard_terms(guards)
+            if kind == "assign":
+                et.append(("assign", self._lhs_path(node["l"]), self._t(node["r"]), gt))
+            elif kind == "assignop":
+                et.append(("assignop", node["op"], self._lhs_path(node["l"]), self._t(node["r"]), gt))
+            elif kind == "mutcall":
+                args = [self._t(a) for a in node["args"]]
+                et.append(("mutcall", cshort(node.get("callee", node["name"])), self._lhs_path(node["recv"]), args, gt))
+            elif kind.startswith("mutarg"):
+                pos = int(kind.split(":")[1])
+                if node["k"] == "MethodCall":
+                    allargs = [node["recv"]] + node["args"]
+                else:
+                    allargs = node["args"]
+                args = [("sym", "&self") if i == pos else self._t(a) for i, a in enumerate(allargs)]
+                inl = self._inline_out_param(node, pos, args, gt)
+                if inl is not None:
+                    et.extend(inl)
+                    inlined_any = True
+                else:
+                    et.append(("mutarg", cshort(node.get("callee", node.get("name", "?"))), args, gt))
+        return et, inlined_any
 
     def _canon_mut(self, lid, t, effs, origin):
         """canonical forms of simple mutable-local idioms:
@@ -981,6 +993,45 @@ class Norm:
         if any(x.get("k") in ("Call", "MethodCall") and x.get("callee") == fn["path"] for x in walk(fn["body"])):
             return None       # recursive helper
         return fn
+
+    def _inline_out_param(self, node, pos, args, gt):
+        """`helper(&mut x, a)` with a transparent helper: the helper's effects on its parameter are effects on x
+        (under the guards of the call, then the helper's own)"""
+        callee = node.get("callee")
+        if not callee or callee in self._stack or len(self._stack) > INLINE_MAX_DEPTH:
+            return None
+        fn = self.transparent_fn(callee, len(args))
+        if fn is None or fn["path"] in self._stack:
+            return None
+        sub = Norm(fn, program=self.program, keep=self.keep, _stack=self._stack)
+        try:
+            pid = sub.param_id(pos)
+        except (IndexError, KeyError):
+            return None
+        if pid is None:
+            return None
+        peffs = sub.effects.get(pid, [])
+        if not peffs:
+            return []
+        pet, _ = sub._effect_tuples(pid, peffs)
+        m = ("mut", "?", ("param", pos), pet)
+        shift = self.call_depth.get(id(node), self._cur_depth)
+
+        def subst(n):
+            if n[0] == "param":
+                return args[n[1]] if n[1] < len(args) and n[1] != pos else (("sym", "<self>") if n[1] == pos else None)
+            if n[0] == "cparam" and shift:
+                return ("cparam", n[1] + shift, n[2])
+            if n[0] == "closure" and shift:
+                return ("closure", n[1] + shift, n[2], n[3])
+            return None
+        m2 = rewrite(m, subst)
+        out = []
+        for eff in m2[3]:
+            if eff[0] == "mutarg" and any(a == ("sym", "&self") for a in eff[2]) and False:
+                return None
+            out.append(tuple(list(eff[:-1]) + [list(gt) + list(eff[-1])]))
+        return out
 
     def _eta(self, path, node):
         """a transparent helper used as a value (`.map(helper)`) is the closure `|a, ..| helper(a, ..)` with the helper inlined"""
